@@ -267,16 +267,19 @@ fn alphabet() -> Vec<Line> {
         Line::new(&["a = 9", "functie g(x) { x + nee }", "g(1)", "a = 10"]),
         Line::new(&["z"]),
         Line::new(&["print(\"{} {}\", a, type(a))", "a * 2"]),
+        Line::new(&["als ja { stel tak = 2; { onbekend } }"]),
+        Line::new(&["stel z = onbekend"]),
+        Line::new(&["stel z = 4", "z + a"]),
     ]
 }
 
 const VARS: [&str; 4] = ["a", "b", "c", "d"];
 
-fn gen_line(t: &mut Tape, declared: &mut Vec<String>, heap_vars: &mut Vec<String>, funcs: &mut Vec<String>, uniq: &mut usize) -> Line {
+fn gen_line(t: &mut Tape, declared: &mut Vec<String>, heap_vars: &mut Vec<String>, funcs: &mut Vec<String>, ghosts: &mut Vec<String>, uniq: &mut usize) -> Line {
     let pick_var = |t: &mut Tape, d: &Vec<String>| if d.is_empty() { "a".to_string() } else { t.pick(d).clone() };
     *uniq += 1;
     let k = *uniq;
-    match t.below(22) {
+    match t.below(26) {
         0 | 1 => {
             let v = t.pick_str(&VARS).to_string();
             if !declared.contains(&v) {
@@ -341,7 +344,27 @@ fn gen_line(t: &mut Tape, declared: &mut Vec<String>, heap_vars: &mut Vec<String
         14 | 15 => {
             // compile error at a chosen statement position
             let v = pick_var(t, declared);
-            let bad = t.pick(&["onbekend", "stop", "volgende", "als ja { onbekend2 }", "zolang ja { stop; onbekend3 }", "functie q() { onbekend4 }", "antwoord 1", "stel w = w2"]).to_string();
+            let bad = t
+                .pick(&[
+                    "onbekend",
+                    "stop",
+                    "volgende",
+                    "als ja { onbekend2 }",
+                    "zolang ja { stop; onbekend3 }",
+                    "functie q() { onbekend4 }",
+                    "antwoord 1",
+                    "stel w = w2",
+                    "{ stel binnen = 1; onbekend5 }",
+                    "als ja { stel tak = 2; { onbekend6 } }",
+                    "stel spook = onbekend7",
+                ])
+                .to_string();
+            // names this line tries to declare: none of them may exist afterwards
+            for g in [format!("n{k}"), "w".to_string(), "binnen".to_string(), "tak".to_string(), "spook".to_string(), "q".to_string()] {
+                if !ghosts.contains(&g) {
+                    ghosts.push(g);
+                }
+            }
             let mut stmts = vec![format!("stel n{k} = 3"), format!("print(\"p{k}\")"), format!("{v} = {}", t.range(60, 90))];
             let pos = t.below(stmts.len() + 1);
             stmts.insert(pos, bad);
@@ -372,6 +395,26 @@ fn gen_line(t: &mut Tape, declared: &mut Vec<String>, heap_vars: &mut Vec<String
             ];
             Line { stmts, cut: Some(1 + t.below(30) as u64) }
         }
+        22 | 23 if !ghosts.is_empty() => {
+            // a name that only a failed line tried to declare: it does not exist
+            let g = t.pick(ghosts).clone();
+            if t.maybe(128) {
+                Line::new(&[&g])
+            } else {
+                let v = pick_var(t, declared);
+                Line::new(&[&format!("print(\"voor {{}}\", {v})"), &format!("{g} + 1")])
+            }
+        }
+        24 if !ghosts.is_empty() => {
+            // ... and can be declared for real afterwards
+            let g = t.pick(ghosts).clone();
+            let val = t.range(1, 99);
+            ghosts.retain(|x| *x != g);
+            if !["w", "binnen", "tak", "spook", "q"].contains(&g.as_str()) {
+                // (the fixed ghost names may be re-used by later failing lines, so they are not added to the readable variables)
+            }
+            Line::new(&[&format!("stel {g} = {val}"), &format!("{g} * 2")])
+        }
         _ => {
             let v = pick_var(t, declared);
             Line::new(&[&format!("print(\"{{}} {{}}\", {v}, type({v}))"), &format!("{v} * 2")])
@@ -383,10 +426,10 @@ fn gen_session(tape: &[u8]) -> Vec<Line> {
     let mut t = Tape::new(tape);
     let n = 2 + t.below(11);
     let mut declared = vec!["a".to_string()];
-    let (mut heap_vars, mut funcs, mut uniq) = (Vec::new(), Vec::new(), 0usize);
+    let (mut heap_vars, mut funcs, mut ghosts, mut uniq) = (Vec::new(), Vec::new(), Vec::new(), 0usize);
     let mut lines = vec![Line::new(&["stel a = 1"])];
     for _ in 0..n {
-        lines.push(gen_line(&mut t, &mut declared, &mut heap_vars, &mut funcs, &mut uniq));
+        lines.push(gen_line(&mut t, &mut declared, &mut heap_vars, &mut funcs, &mut ghosts, &mut uniq));
     }
     lines
 }
@@ -419,7 +462,7 @@ pub fn run_check(ctx: &Ctx) -> Report {
     let mut rep = Report::new(
         "C17",
         "fault_enumeration",
-        "sessions on one retained (Compiler, VM) pair: ALL sessions of <=3 lines over a 16-line alphabet (declarations, assignments, expressions over earlier globals, heap values, a function definition with calls, a call of a function of an earlier line, a loop, \
+        "sessions on one retained (Compiler, VM) pair: ALL sessions of <=3 lines over a 19-line alphabet (declarations, assignments, expressions over earlier globals, heap values, a function definition with calls, a call of a function of an earlier line, a loop, \
          and failing lines: parse error, compile errors after a declaration and inside a loop with a pending stop, run-time errors after assignments), plus generated sessions of up to 13 lines (lines of the same kinds, compile errors at every statement position, \
          run-time errors inside functions and loops, and lines cut short by the instruction budget after k instructions). Oracle: every line must produce what the same line produces as the last line of ONE program made of the effective earlier lines (nederlang::eval of the concatenation); \
          a line that fails statically contributes nothing, a line that fails at run time contributes the statements it completed. non-trivial = a failing line is followed by another line, or a line reads state written two or more lines earlier; distinct by session text",
@@ -499,7 +542,7 @@ pub fn run_check(ctx: &Ctx) -> Report {
             }
         }
     }
-    rep.extra.insert("exhaustive_parts".into(), json!(["all sessions of <=3 lines over the 16-line alphabet (4368 sessions)", "every cut point k of three multi-statement lines"]));
+    rep.extra.insert("exhaustive_parts".into(), json!(["all sessions of <=3 lines over the 19-line alphabet (7239 sessions)", "every cut point k of three multi-statement lines"]));
     par_shards(ctx.shards, rep, move |shard, r| {
         let alpha = alphabet();
         let n = alpha.len();
